@@ -23,6 +23,7 @@
 #include <bee2/math/pp.h>
 #include <bee2/math/pri.h>
 #include <bee2/math/gfp.h>
+#include <bee2/math/ec.h>
 #include <bee2/math/ecp.h>
 #include <bee2/crypto/bign.h>
 #include <bee2/crypto/bign96.h>
@@ -632,6 +633,26 @@ static void doExecLine(vx_cmd* c)
 	{
 		size_t n = numWords(c, "a"); word* a = numArg(c, "a", n); void* st = xalloc(ppIsIrred_deep(n));
 		jInt("res", ppIsIrred(a, n, st)); free(st); free(a);
+	}
+	else if (strcmp(op, "safeGroup") == 0)
+	{
+		/* ecpIsSafeGroup(ec, mov_threshold) on a crafted pair (p, q): a curve description over GF(p) (A = 1, B = 5, as the
+		   function looks only at the field and the group order) with group order q, one result per threshold of the list */
+		size_t pl, ql; octet* po = vxHex(c, "p", &pl); octet* qo = vxHex(c, "q", &ql); unsigned long long thr[32]; size_t nt = lst(thr, 32, c, "thr"), i;
+		size_t no = pl, n = W_OF_O(no);
+		size_t f_keep = gfpCreate_keep(no), f_deep = gfpCreate_deep(no), ec_keep = ecpCreateJ_keep(n);
+		size_t sd = utilMax(4, f_deep, ecpCreateJ_deep(n, f_deep), ecCreateGroup_deep(f_deep), ecpIsSafeGroup_deep(n));
+		qr_o* f = (qr_o*)xalloc(f_keep); ec_o* ec = (ec_o*)xalloc(ec_keep); void* st = xalloc(sd);
+		octet* A = (octet*)xalloc(no); octet* B = (octet*)xalloc(no);
+		memset(A, 0, no); memset(B, 0, no); A[0] = 1; B[0] = 5;
+		if (!po || !qo || !gfpCreate(f, po, no, st) || !ecpCreateJ(ec, f, A, B, st) || !ecCreateGroup(ec, 0, 0, qo, ql, 1, st)) jInt("rc", -1);
+		else
+		{
+			jResBegin("res");
+			for (i = 0; i < nt; ++i) jResPut(i, ecpIsSafeGroup(ec, (size_t)thr[i], st) ? 1 : 0);
+			jResEnd(); jInt("rc", 0);
+		}
+		free(B); free(A); free(st); free(ec); free(f); free(qo); free(po);
 	}
 	else if (strcmp(op, "onA") == 0)
 	{
